@@ -19,7 +19,9 @@ func TestAcceptance(t *testing.T) {
 	examples := map[string]string{}
 	n, ok := 0, 0
 	rapid.Check(t, func(rt *rapid.T) {
-		m, _ := gen.Module(rt, gen.DefaultCfg())
+		cfg := gen.DefaultCfg()
+		cfg.DebugInfo = os.Getenv("PROBE_DI") != ""
+		m, _ := gen.Module(rt, cfg)
 		gen.SparseMetadataIDs(rt, m)
 		x := m.TextNoisy(gen.DrawNoise(rt))
 		n++
